@@ -49,6 +49,7 @@ def triples_term(t):
 #   "intern": True = one Qubit object per (field, site), shared by everything built from these fields;
 #             default: a fresh Qubit object at every mention (equal-but-distinct particles)
 #   "num":    type of the scalar / vector parameters handed to the constructors ("np64", "np32", "int", "tuple")
+#   "seq":    "tuple" = field lists and particle lists are handed over as tuples instead of lists
 FMODE = {}
 _INTERN = {}
 
@@ -129,6 +130,11 @@ def qubit(F, p):
             _INTERN[key] = (F[p[0]], qib.field.Qubit(F[p[0]], p[1]))     # the field is kept alive with its id
         return _INTERN[key][1]
     return qib.field.Qubit(F[p[0]], p[1])
+
+
+def seq(items):
+    """a field list / particle list in the container the mode asks for"""
+    return tuple(items) if FMODE.get("seq") == "tuple" else list(items)
 
 
 def num(x):
@@ -212,22 +218,22 @@ def build_gate(spec, F):
     if k == "Rot":
         return qib.RotationGate(numvec(spec[1]), qubit(F, spec[2]))
     if k == "Prep":
-        return qib.PrepareGate(numvec(spec[1]), len(spec[2])).on([qubit(F, p) for p in spec[2]])
+        return qib.PrepareGate(numvec(spec[1]), len(spec[2])).on(seq([qubit(F, p) for p in spec[2]]))
     if k == "iSwap":
         return qib.ISwapGate(qubit(F, spec[1]), qubit(F, spec[2]))
     if k == "Phase":
-        return qib.PhaseFactorGate(num(spec[1]), len(spec[2])).on([qubit(F, p) for p in spec[2]])
+        return qib.PhaseFactorGate(num(spec[1]), len(spec[2])).on(seq([qubit(F, p) for p in spec[2]]))
     if k == "Gen":
         # optional 4th entry: memory layout / dtype of the matrix handed to the constructor
         m = relayout(np.array([[complex(*e) for e in row] for row in spec[1]]),
                      spec[3] if len(spec) > 3 and not FMODE.get("ref") else "C")
-        return qib.GeneralGate(m, len(spec[2])).on([qubit(F, p) for p in spec[2]])
+        return qib.GeneralGate(m, len(spec[2])).on(seq([qubit(F, p) for p in spec[2]]))
     if k == "C":
         inner = build_gate(spec[3], F)
-        return qib.ControlledGate(inner, len(spec[1]), list(spec[1])).set_control([qubit(F, p) for p in spec[2]])
+        return qib.ControlledGate(inner, len(spec[1]), seq(spec[1])).set_control(seq([qubit(F, p) for p in spec[2]]))
     if k == "Mux":
         inners = [build_gate(s, F) for s in spec[2]]
-        return qib.MultiplexedGate(inners, len(spec[1])).set_control([qubit(F, p) for p in spec[1]])
+        return qib.MultiplexedGate(seq(inners), len(spec[1])).set_control(seq([qubit(F, p) for p in spec[1]]))
     raise ValueError("gate spec " + repr(spec))
 
 
@@ -585,7 +591,7 @@ def oracle_gate(ctx, sizes, order, spec, desc):
 def _oracle_gate(ctx, sizes, order, spec, desc):
     F = mk_fields(sizes)
     g = build_gate(spec, F)
-    fields = [F[i] for i in order]
+    fields = seq([F[i] for i in order])
     prt = spec_particles(spec)
     listed = [(fidx(F, p.field), p.index) for p in g.particles()]
     if listed != [(a, b) for a, b in prt]:
@@ -700,7 +706,7 @@ def _oracle_gate_history(ctx, sizes, spec, steps, desc, collect=None):
                         h[1] = dense(out)
         elif st[0] == "q":
             order = st[1]
-            fields = [F[i] for i in order]
+            fields = seq([F[i] for i in order])
             exp, ws = expected_query(sizes, order, cur)
             nw = sum(sizes[i] for i in order)
             with Spy() as spy:
@@ -894,6 +900,8 @@ def rand_fmode(rng, sizes, nums=("np64", "int", "tuple")):
         m["intern"] = True
     if nums and rng.random() < 0.3:
         m["num"] = rng.choice(nums)
+    if rng.random() < 0.25:
+        m["seq"] = "tuple"
     return m
 
 
